@@ -8,7 +8,7 @@ use crate::gen::{self, GSpec};
 use crate::iso;
 use crate::ring::Zw;
 use crate::simcore::{with_sim, Caught, Core};
-use crate::zxeval::{Dg, Sc as DSc, DV, VT};
+use crate::zxeval::{Dg, Sc as DSc, Val, DV, VT};
 use quizx::graph::GraphLike;
 use serde::{Deserialize, Serialize};
 use serde_json::{json, Value};
@@ -433,7 +433,30 @@ impl Ctx<'_> {
             d2.scalar = self.orig.scalar.clone();
             if let Ok(t2) = d2.tensor(16) {
                 self.out.probe("tensor_compared");
-                if t.len() != t2.len() || t.iter().zip(t2.iter()).any(|(x, y)| !x.same(y, 1e-9)) {
+                // float entries are compared relative to the largest entry of the two tensors (an
+                // entry that cancels to nearly nothing carries the rounding noise of the whole
+                // sum, and the scalar may be as far out as 2^±300)
+                let mag = |v: &Val| {
+                    let (a, b) = v.to_c64();
+                    (a * a + b * b).sqrt()
+                };
+                let smag = match &self.orig.scalar {
+                    DSc::Exact(z) => {
+                        let (a, b) = z.to_c64();
+                        (a * a + b * b).sqrt()
+                    }
+                    DSc::Float(a, b) => (a * a + b * b).sqrt(),
+                };
+                let scale = t.iter().chain(t2.iter()).map(mag).fold(smag, f64::max);
+                let differs = |x: &Val, y: &Val| match (x, y) {
+                    (Val::Exact(a), Val::Exact(b)) => a != b,
+                    _ => {
+                        let (a, b) = x.to_c64();
+                        let (c, d) = y.to_c64();
+                        ((a - c).powi(2) + (b - d).powi(2)).sqrt() > 1e-9 * scale
+                    }
+                };
+                if t.len() != t2.len() || t.iter().zip(t2.iter()).any(|(x, y)| differs(x, y)) {
                     self.out.violations.push(Violation::new(
                         "tensor_differs",
                         format!("{what}: decoded diagram denotes a different linear map"),
